@@ -335,6 +335,20 @@ func cmdReplay(args []string) int {
 		fmt.Fprintln(os.Stderr, "unknown engine in replay file:", r.Engine)
 		return 2
 	}
+	if oracle == "" && r.Worker != nil && (r.Worker.Run-r.Worker.From)/max64(r.Worker.Stride, 1) <= 100000 {
+		// the single execution does not fail in a fresh process: the failure may need the state
+		// the tree accumulated over the earlier runs of the same worker process - re-execute them
+		self, _ := os.Executable()
+		log.SetOutput(io.Discard)
+		switch r.Engine {
+		case "cosim":
+			oracle, detail = engine.HistoryReplay(r, self, engine.CosimWorker)
+		case "hist":
+			oracle, detail = engine.HistoryReplay(r, self, engine.HistWorker)
+		case "fault":
+			oracle, detail = engine.HistoryReplay(r, self, engine.FaultWorker)
+		}
+	}
 	if oracle == "" {
 		fmt.Printf("not reproduced: property=%s oracle=%s %s\n", r.Property, r.Oracle, detail)
 		return 0
@@ -344,6 +358,13 @@ func cmdReplay(args []string) int {
 	}
 	fmt.Printf("VIOLATION property=%s replay=%s\n  oracle=%s %s\n", r.Property, args[0], oracle, detail)
 	return 1
+}
+
+func max64(a, b uint64) uint64 {
+	if a > b {
+		return a
+	}
+	return b
 }
 
 // cmdGen prints generated programs (debugging aid).
